@@ -191,6 +191,9 @@ def _script_variants():
     yield {"k": "script", "inner": inner}
     yield {"k": "script", "inner": inner, "tag": "SCRIPT", "attrs": ' type="text/javascript"'}
     yield {"k": "script", "inner": [{"k": "text", "t": "var a = '<a href=\"http://js.com/\">';"}]}
+    # bodies spanning several lines ('.' must cross line breaks in the str and in the bytes pattern alike)
+    yield {"k": "script", "inner": [{"k": "text", "t": "\nvar x = 1;\n"}] + inner + [{"k": "text", "t": "\n"}]}
+    yield {"k": "script", "inner": [{"k": "text", "t": "\r\n\u2028"}] + inner + [{"k": "text", "t": "\n</scr\nipt>\n"}], "attrs": '\n type="module"\n'}
     yield {"k": "script", "inner": inner, "tag": "ſcript", "real": False}
     yield {"k": "script", "inner": inner, "tag": "scrıpt", "real": False}
     yield {"k": "script", "inner": inner, "tag": "SCRİPT", "real": False}
